@@ -18,11 +18,21 @@ FRAG_WIRE = f("s/fragswarm", "appendUvarint", "newMessage", "parseMessage")
 FRAG_AGG = f("s/fragswarm", "(*aggregator).addPart", "(*aggregator).assemble", "(*swarm).handleTell")
 FRAG_SEND = f("s/fragswarm", "(*swarm).Tell", "(*swarm).MTU")
 
+HDR = f("p/mbapp", "ParseMessage", "(Header).getUint32", "(Header).setUint32", "(Header).GetCounter", "(Header).SetCounter",
+        "(Header).GetOriginTime", "(Header).SetOriginTime", "(Header).GetTotalSize", "(Header).SetTotalSize", "(Header).SetTimeout",
+        "(Header).GetTimeout", "(Header).GetPartIndex", "(Header).SetPartIndex", "(Header).GetPartCount", "(Header).SetPartCount",
+        "(Header).GetErrorCode", "(Header).SetErrorCode", "(Header).IsAsk", "(Header).SetIsAsk", "(Header).IsReply", "(Header).SetIsReply",
+        "(Header).GroupID")
+BITMAP = f("p/mbapp", "newBitMap", "(bitMap).get", "(bitMap).set", "(bitMap).allSet")
+COLL = f("p/mbapp", "newCollector", "(*collector).addPart", "(*fragLayer).getCollector", "(*fragLayer).handlePart",
+         "(*Swarm).handleMessage", "(*Swarm).handleMessage$1", "(*Swarm).handleTell")
+MB_SEND = f("p/mbapp", "(*Swarm).MTU", "(*Swarm).Tell", "(*Swarm).Ask", "(*Swarm).send", "extractErrorCode")
+
 PROPS = [
-    dict(id="C01", functions=VEC + FRAG_WIRE + FRAG_AGG + FRAG_SEND, assumptions=COMMON + BINARY),
-    dict(id="C08", functions=MUX + FRAG_WIRE + FRAG_AGG, assumptions=COMMON + BINARY),
-    dict(id="C09", functions=VEC + FRAG_SEND + f("s/fragswarm", "newMessage", "appendUvarint"), assumptions=COMMON + BINARY),
-    dict(id="C10", functions=FRAG_WIRE + FRAG_AGG, assumptions=COMMON + BINARY),
+    dict(id="C01", functions=VEC + FRAG_WIRE + FRAG_AGG + FRAG_SEND + HDR + COLL + MB_SEND, assumptions=COMMON + BINARY),
+    dict(id="C08", functions=MUX + FRAG_WIRE + FRAG_AGG + HDR + BITMAP + COLL, assumptions=COMMON + BINARY),
+    dict(id="C09", functions=VEC + FRAG_SEND + f("s/fragswarm", "newMessage", "appendUvarint") + MB_SEND + HDR, assumptions=COMMON + BINARY),
+    dict(id="C10", functions=FRAG_WIRE + FRAG_AGG + BITMAP + COLL, assumptions=COMMON + BINARY),
     dict(id="C15", functions=MUX, assumptions=COMMON + BINARY),
     dict(id="C19", functions=KAD_LAWS, assumptions=COMMON),
 ]
